@@ -24,5 +24,6 @@ def get_full_docstring(declaration: nodes.ClassDef | nodes.FuncDef) -> str:
     for definition in definitions:
         if isinstance(definition, nodes.ExpressionStmt) and isinstance(definition.expr, nodes.StrExpr):
             full_docstring = definition.expr.value
+            break
 
     return inspect.cleandoc(full_docstring)
